@@ -192,7 +192,35 @@ def scenario(mods, fs, fname, sims_spec, n_trials, save_frequency, counter):
         return {'error': None, 'syndrome': None, 'correction': None, 'effective_error': tid,
                 'success': True, 'codespace': True}
     dsm.run_once = run_once
-    batch.run(n_trials)
+    if not getattr(fs, 'trace_lines', False):
+        batch.run(n_trials)
+        return batch
+    # KeyboardInterrupt is asynchronous: it can arrive between any two lines.  Every line of the functions
+    # that hold the simulation state (the trial loop, the append of a trial's values, load / save / pause
+    # handling) is a crash opportunity of its own.
+    import sys as _sys
+    import panqec.simulation._base_simulation as _bas
+    traced = set()
+    for cls in (dsm.DirectSimulation, bsm.BatchSimulation, _bas.BaseSimulation):
+        for name in ('_run', 'run', 'save_results', '_save_results', 'load_results', 'load_results_from_dict',
+                     '_update_file', 'save_file'):
+            f = cls.__dict__.get(name)
+            if f is not None and hasattr(f, '__code__'):
+                traced.add(f.__code__)
+
+    def local(frame, event, arg):
+        if event == 'line':
+            fs.hook(f'line:{frame.f_code.co_name}:{frame.f_lineno}')
+        return local
+
+    def tracer(frame, event, arg):
+        return local if frame.f_code in traced else None
+    old = _sys.gettrace()
+    _sys.settrace(tracer)
+    try:
+        batch.run(n_trials)
+    finally:
+        _sys.settrace(old)
     return batch
 
 
@@ -206,6 +234,7 @@ def worker(cfg, tier='quick'):
     nmax = int(parts['nmax'])
     grow = parts.get('grow', '0') == '1'
     mode = parts.get('mode', 'fresh')          # fresh: every restart is a new process; same: reruns in one interpreter
+    lines = parts.get('lines', '0') == '1'     # KeyboardInterrupt may also arrive between any two lines of the state-holding functions
     fname = '/out/results' + ext
     col = hz.Collector(cfg)
     B = bsm.BatchSimulation
@@ -254,6 +283,7 @@ def worker(cfg, tier='quick'):
                 new_process()
                 # dry run: count the crash opportunities of the first run
                 fs0 = FS()
+                fs0.trace_lines = (lines and KIND == 1)      # line-level opportunities only matter for KeyboardInterrupt
                 cnt = [0]
                 fs0.hook = lambda where: cnt.__setitem__(0, cnt[0] + 1)
                 install(fs0)
@@ -264,6 +294,7 @@ def worker(cfg, tier='quick'):
                 CP = int(cp)                       # CP == n_opp: no crash in the first run
                 # first run with the crash
                 fs = FS()
+                fs.trace_lines = (lines and KIND == 1)
                 seen = [0]
                 last_saved = {}
 
@@ -297,6 +328,7 @@ def worker(cfg, tier='quick'):
                 # (modules reloaded: no in-memory state survives) or the same interpreter
                 fs.dead = False
                 fs.hook = lambda where: None
+                fs.trace_lines = False
                 if mode == 'fresh' or crashed == 'killed':
                     new_process()
                 install(fs)
@@ -333,7 +365,7 @@ def worker(cfg, tier='quick'):
 
     def wit_of(v):
         return dict(n1=v['N1'], n2=v['N2a'], n3=v['N3'], save_frequency=v['SF'], crash_point=v['CP'], kind=v['KIND'],
-                    opportunities=v['n_opp'], ext=ext, grow=grow, mode=mode)
+                    opportunities=v['n_opp'], ext=ext, grow=grow, mode=mode, lines=lines)
     kinds = {'completes-without-error': [], 'exact-trial-counts': [], 'last-completed-save-is-a-prefix': [],
              'no-trial-counted-twice': [], 'foreign-records-not-adopted': [], 'completed-run-is-on-disk': []}
     wits = {k: None for k in kinds}
@@ -412,6 +444,7 @@ def replay(path):
                 raise KeyboardInterrupt()
             seen[0] += 1
         fs.hook = hook
+        fs.trace_lines = (w['kind'] == 1 and w.get('lines', False))
         ut.open, ut.gzip, ut.os, bsm.os, bas.os = fs.open, FakeGzip(fs), FakeOs(fs), FakeOs(fs), FakeOs(fs)
         bsm.print = bas.print = lambda *a, **k: None
         counter = [0]
@@ -424,6 +457,7 @@ def replay(path):
             pass
         fs.dead = False
         fs.hook = lambda where: None
+        fs.trace_lines = False
         print('file after the first run:', repr(fs.files.get(fname))[:120])
         if w.get('mode', 'fresh') == 'fresh' or killed:
             import importlib
@@ -460,7 +494,8 @@ def replay(path):
             elif 'on-disk' in oid:
                 data = ut.load_json(fname) if fs.isfile(fname) else None
                 print('on disk after the completed run:', None if data is None else [r_['results']['n_runs'] for r_ in data])
-                bad = data is None or any(r_['results']['n_runs'] != w['n2'] for r_ in data) or len(data) != len(spec2)
+                bad = data is None or len(data) != len(spec2) or any(
+                    r_['results']['n_runs'] != w['n2'] or len(r_['results']['effective_error']) != w['n2'] for r_ in data)
         except Exception as ex:
             print('restart raised', type(ex).__name__, ex)
             bad = 'completes' in oid or True
@@ -473,11 +508,12 @@ def replay(path):
 
 def configs(tier):
     out = ['crash ext=.json nmax=3 grow=0', 'crash ext=.json.gz nmax=3 grow=0', 'crash ext=.json nmax=3 grow=1',
-           'crash ext=.json nmax=2 grow=0 mode=same', 'crash ext=.json.gz nmax=2 grow=1 mode=same']
+           'crash ext=.json nmax=2 grow=0 mode=same', 'crash ext=.json.gz nmax=2 grow=1 mode=same',
+           'crash ext=.json nmax=2 grow=0 lines=1', 'crash ext=.json.gz nmax=2 grow=0 lines=1']
     if tier != 'quick':
         out += ['crash ext=.json.gz nmax=3 grow=1', 'crash ext=.json nmax=4 grow=0', 'crash ext=.json.gz nmax=4 grow=1',
                 'crash ext=.json nmax=3 grow=1 mode=same', 'crash ext=.json.gz nmax=3 grow=0 mode=same',
-                'crash ext=.json nmax=5 grow=0']
+                'crash ext=.json nmax=5 grow=0', 'crash ext=.json nmax=3 grow=1 lines=1', 'crash ext=.json.gz nmax=2 grow=0 mode=same lines=1']
     return out
 
 
@@ -502,7 +538,9 @@ def main(argv=None):
                      'state survives); mode=same keeps the interpreter and adds a third run'],
         bounds=dict(n_trials='n1 <= n2 <= 3 (quick) / 4 (thorough)', save_frequency='1..3', simulations='2 (+2 when the '
                     'specification grows)', crash='every crash opportunity of the first run (before each trial, before / '
-                    'after truncation, mid-write, after write, before / after rename) x {kill, KeyboardInterrupt} + no crash'),
+                    'after truncation, mid-write, after write, before / after rename) x {kill, KeyboardInterrupt} + no crash; '
+                    'configurations with lines=1: additionally a KeyboardInterrupt before every line of DirectSimulation._run, '
+                    'BatchSimulation.run / _run / save / load and BaseSimulation.load_results*'),
         stubs=['open / gzip / os inside panqec.utils, os inside _batch_simulation and _base_simulation -> in-memory FS',
                '_direct_simulation.run_once -> numbered trials'],
         outside=['several crashes in one history', 'crash between two Python statements other than the listed opportunities',
